@@ -41,6 +41,7 @@ var Prop = &engine.Prop{
 		{Name: "syncq-burst", Quick: 60, Thorough: 2400, Fn: syncqBurstCase},
 		{Name: "anyway-close", Quick: 400, Thorough: 16000, Fn: anywayCloseCase},
 		{Name: "late-waker", Quick: 1200, Thorough: 48000, Fn: lateWakerCase},
+		{Name: "mq-reuse", Quick: 600, Thorough: 24000, Fn: mqReuseCase},
 		{Name: "seq-priq", Quick: 12000, Thorough: 500000, Fn: seqCase(famPri)},
 		{Name: "lin-pipe", Quick: 3000, Thorough: 90000, Repeat: 20, Fn: linCase(famQ, famAsync, famMux)},
 		{Name: "lin-mq", Quick: 2000, Thorough: 60000, Repeat: 20, Fn: linCase(famMQ)},
